@@ -168,7 +168,7 @@ pub fn check_c03(tier: Tier) -> i32 {
     violations.extend(bg.violations.clone());
     let mut miri: Vec<Value> = Vec::new();
     if tier == Tier::Thorough {
-        for (part, n) in [("gc", 64u64), ("programs", 24u64)] {
+        for (part, n) in [("gc", 64u64), ("programs", 16u64)] {
             let (ran, summary, v) = miri_adjunct("C03", seed, part, n);
             miri.push(json!({"part": part, "n": n, "ran": ran, "summary": summary}));
             if let Some(v) = v {
@@ -526,11 +526,12 @@ pub fn check_c16(tier: Tier) -> i32 {
 /// Thorough tier: the Miri adjunct (DESIGN.md 3.11). Returns (ran, summary, violation).
 pub fn miri_adjunct(property: &str, seed: u64, part: &str, n: u64) -> (bool, String, Option<crate::acc::Violation>) {
     let dir = orch::verif_dir().join("sim");
-    let out = std::process::Command::new("cargo")
+    // bounded: Miri is two orders of magnitude slower than native code
+    let out = std::process::Command::new("timeout")
         .current_dir(&dir)
         .env("MIRIFLAGS", "-Zmiri-permissive-provenance -Zmiri-disable-stacked-borrows")
         .env("CARGO_NET_OFFLINE", "true")
-        .args(["+nightly", "miri", "run", "--offline", "--quiet", "--", "miri", &seed.to_string(), part, &n.to_string()])
+        .args(["-k", "10", "1500", "cargo", "+nightly", "miri", "run", "--offline", "--quiet", "--", "miri", &seed.to_string(), part, &n.to_string()])
         .output();
     let out = match out {
         Ok(o) => o,
@@ -540,6 +541,9 @@ pub fn miri_adjunct(property: &str, seed: u64, part: &str, n: u64) -> (bool, Str
     let stderr = String::from_utf8_lossy(&out.stderr).to_string();
     if stderr.contains("is not installed") || stderr.contains("no such command") || stderr.contains("toolchain 'nightly") {
         return (false, format!("miri not available: {}", stderr.lines().next().unwrap_or("")), None);
+    }
+    if out.status.code() == Some(124) || out.status.code() == Some(137) {
+        return (false, "miri adjunct stopped after 25 minutes (not finished, nothing concluded)".into(), None);
     }
     let ok_line = stdout.lines().find(|l| l.starts_with("miri-adjunct"));
     if out.status.success() && ok_line.map(|l| l.ends_with("problems=0")).unwrap_or(false) {
